@@ -393,6 +393,38 @@ theorem wrapper_wellformed (f : Func) (wf : WfFunc f) (inj : List Name)
   obtain ⟨wf2, _, _, _, _⟩ := expectAll_spec wf1 exp h2
   exact ⟨hn, wf2.len, wf2.kwd, wf2.kwdNodup⟩
 
+/-! ## any history of `FunctionBuilder.remove_arg` / `add_arg` calls -/
+
+/-- whatever sequence of `remove_arg` / `add_arg(…[, kwonly=True])` calls is made on
+    `FunctionBuilder.from_func(f)`: if `get_func()` then compiles, every parameter never named
+    in the history is still there with the default it had in `f`, metadata, annotations and
+    sync/async kind are `f`'s, and the result is a well-formed function -/
+theorem history_defaults_stay_attached (f : Func) (wf : WfFunc f) (ops : List BOp) (ident : Nat)
+    (w : Func) (h : buildHistory f ops ident = .ok w) :
+    WfFunc w ∧ (∀ p, p ∉ ops.map BOp.name → (sigOf w).dflt p = (sigOf f).dflt p) ∧
+      (sigOf w).varargs = (sigOf f).varargs ∧ (sigOf w).varkw = (sigOf f).varkw ∧
+      w.ann = f.ann ∧ w.retAnn = f.retAnn ∧ w.isAsync = f.isAsync ∧
+      w.name = f.name ∧ w.doc = f.doc ∧ w.module = f.module := by
+  obtain ⟨fb, hr, hn, rfl⟩ := buildHistory_inv h
+  obtain ⟨wf', hrest, hd⟩ := run_spec (wfFB_fromFunc wf) ops hr
+  simp only [FB.rest, Prod.mk.injEq] at hrest
+  obtain ⟨hname, hdoc, hmod, hva, hvk, hann, hret, hasy⟩ := hrest
+  exact ⟨⟨hn, wf'.len, wf'.kwd, wf'.kwdNodup⟩, fun p hp => hd p hp, hva, hvk, hann, hret, hasy,
+    hname, hdoc, hmod⟩
+
+/-- … and it forwards its own bound arguments, like every function the builder compiles -/
+theorem history_forwarding (f : Func) (ops : List BOp) (ident : Nat) (w : Func)
+    (h : buildHistory f ops ident = .ok w) (c : Call) (b : Bound) (hb : bind (sigOf w) c = some b) :
+    ∃ c', callWrapper w c = some c' ∧ bind (sigOf w) c' = some b := by
+  obtain ⟨fb, _, hn, rfl⟩ := buildHistory_inv h
+  have hnames : (sigOf (fb.toFunc ident none)).names.Nodup := by
+    rw [sigOf_names]; exact names_sub_nodup hn
+  obtain ⟨c', he, hb'⟩ := rebind _ hnames c b hb
+  refine ⟨c', ?_, hb'⟩
+  unfold callWrapper
+  rw [hb, parseCall_body fb ident _ hn]
+  exact he
+
 /-! ## non-vacuity -/
 
 /-- `def f(p1, p2=12, p3=13, *p7, p4, p5=25, **p9)` with annotations, a docstring -/
@@ -419,6 +451,9 @@ def errOf (r : Except Err Func) : Option Err :=
   match r with
   | .error e => some e
   | .ok _ => none
+example : (buildHistory exF [.remove 2, .add 6 none false, .add 8 (some 42) true, .remove 5]).toOption.map
+    (fun w => sigOf w) = some ⟨[(1, none), (6, none), (3, some 13)], some 7, [(4, none), (8, some 42)], some 9⟩ := by
+  decide
 example : errOf (updateWrapper exF [] [(7, none)]) = some .syntaxError := by decide
 example : errOf (updateWrapper { exF with varkw := none } [8] []) = some .missingArgument := by decide
 
